@@ -162,6 +162,7 @@ func genC20(t *rapid.T) c20Case {
 		d = genDelims(t)
 	}
 	g := gensrc.New(t, d.L(), d.R(), d.CL(), d.CR())
+	g.Strays = true
 	c := c20Case{Delims: d, Src: g.Program()}
 	for k := range g.Kinds {
 		c.Kinds = append(c.Kinds, k)
